@@ -71,9 +71,6 @@ def ex1 : Ex :=
     (.bin (.atom 48) 2 (.bin (.node 1 (.cons (.bin (.atom 56) 18 (.atom 64)) .nil)) 26 (.atom 2)))
 example : wf sqlite sqliteOps ex1 = true := by decide
 example : wf postgres postgresOps ex1 = true := by decide
-example : pr (policyOf sqliteCells) ex1 =
-    [.lp, .not, .lp, .atom 8, .op 8, .lp, .atom 16, .op 10, .atom 24, .rp, .op 0, .atom 32, .op 16, .atom 40,
-     .rp, .rp, .op 0, .atom 48, .op 2, .opn 1, .atom 56, .op 18, .atom 64, .cls, .op 26, .atom 2] := by decide +kernel
 /-- the parser consumes the whole printed form (and printing the result gives it back) -/
 example : (parseE sqlite 40 0 (pr (policyOf sqliteCells) ex1)).map
       (fun r => (pr (policyOf sqliteCells) r.1, r.2)) = some (pr (policyOf sqliteCells) ex1, []) := by
